@@ -75,7 +75,7 @@ impl MetaCase {
         for s in &self.segs {
             for _ in 0..s.reps {
                 out.push(s.line.clone());
-                if out.len() >= 40_000 {
+                if out.len() >= 90_000 {
                     return out;
                 }
             }
@@ -302,9 +302,23 @@ pub fn seg() -> impl Strategy<Value = Seg> {
         8 => 2u32..6,
         10 => select(&[47u32, 48, 49, 50, 51, 52][..]),
         3 => Just(1000u32),
+        2 => select(&[4095u32, 4096, 4097][..]),
         1 => Just(10000u32),
     ];
     (line, reps).prop_map(|(line, reps)| Seg { line, reps })
+}
+
+/// deterministic long files: the deciding record after 65535 / 65536 / 65537 / 70000 negatives
+pub fn long_cases() -> Vec<MetaCase> {
+    let mut v = Vec::new();
+    for n in [65535u32, 65536, 65537, 70000] {
+        for neg in [L::MethodUnmapped(0), L::Noise(0), L::Header(3, 1), L::Class] {
+            for crlf in [false, true] {
+                v.push(MetaCase { segs: vec![Seg { line: L::Class, reps: 1 }, Seg { line: neg.clone(), reps: n }, Seg { line: L::Header(2, 2), reps: 1 }, Seg { line: L::MethodMapped, reps: 1 }], final_eol: false, crlf });
+            }
+        }
+    }
+    v
 }
 
 pub fn meta_case() -> BoxedStrategy<MetaCase> {
@@ -321,6 +335,8 @@ pub fn run(ctx: &Ctx) -> Report {
     rep.rule = "Generated: files built from segments (class / line-mapped method / method without usable range in 3 spellings / field / compiler, compiler_version, min_api and look-alike headers with well-formed, malformed, valueless and > u32 values / error lines / blank lines), each repeated 1, 2..5, 47..52, 1000 or 10000 times, so that the deciding record sits after 0, 1, 49, 50, 51, thousands of negatives or in the last line without terminator; LF or CRLF; plus hostile token mutants and raw bytes. Oracle: (1) truth computed from the generated line list, (2) the fold over ProguardMapping::iter() stated in the property; has_line_info / is_valid / summary must equal both. evaluations = files. Non-trivial = distinct files whose deciding record (first line-mapped method, last metadata header) is not among the first 10 items.".into();
     rep.assumptions = vec!["min_api is the u32 parse of the last min_api header value; values with a leading '+' are not generated".into()];
     rep.run_stage("segments", meta_case, ctx.cases(40_000, 1_800_000), check_case);
+    let longs = long_cases();
+    rep.run_enum("long", &longs, check_case);
     let cfg = crate::gen::mapping::GenCfg { plain_sourcefile_headers: true, ..Default::default() };
     rep.run_stage("mutants", move || crate::gen::mutate::hostile_case(&cfg), ctx.cases(40_000, 1_800_000), |c: &crate::gen::mutate::MutCase, st: &mut Stats| check_raw(&c.bytes(), st));
     rep.run_stage("bytes", || vec(any::<u8>(), 0..300).prop_map(|v| RawCase { hex: hex(&v) }), ctx.cases(40_000, 1_800_000), |c: &RawCase, st: &mut Stats| check_raw(&unhex(&c.hex), st));
@@ -338,7 +354,7 @@ pub fn replay(stage: &str, case: &Value) -> Check {
     let mut st = Stats::new();
     let de = |e: serde_json::Error| Fail::new("harness-replay", e.to_string());
     match stage {
-        "segments" => check_case(&serde_json::from_value(case.clone()).map_err(de)?, &mut st),
+        "segments" | "long" => check_case(&serde_json::from_value(case.clone()).map_err(de)?, &mut st),
         "mutants" => {
             let c: crate::gen::mutate::MutCase = serde_json::from_value(case.clone()).map_err(de)?;
             check_raw(&c.bytes(), &mut st)
